@@ -128,7 +128,14 @@ Definition render_leaf (p : pads) (name : str) (l : leaf) : str :=
 
 Definition prefix_field (name : str) (h : str) : str := name ++ inf_hdr_sep :: h.
 
-(* the headers of field [name] with schema [s]; the sub-headers of a complex field *)
+(* index-spread entries are the fields "1", "2", ... *)
+Fixpoint numbered {T} (i : N) (es : list T) : list (str * T) :=
+  match es with
+  | [] => []
+  | e :: r => (str_of_N i, e) :: numbered (i + 1) r
+  end.
+
+(* the headers of field [name] with schema [s] *)
 Fixpoint headers_of_field (name : str) (s : sty) : list str :=
   match s with
   | SLeaf p l => [render_leaf p name l]
@@ -144,8 +151,19 @@ Fixpoint headers_of_field (name : str) (s : sty) : list str :=
         (flat_map (fun nt : str * sty => headers_of_field (fst nt) (snd nt)) fs)
   end.
 
-Definition headers_of (sc : schema) : list str :=
-  flat_map (fun nt : str * sty => headers_of_field (fst nt) (snd nt)) sc.
+Definition headers_of_fields (fs : list (str * sty)) : list str :=
+  flat_map (fun nt : str * sty => headers_of_field (fst nt) (snd nt)) fs.
+
+(* the named children of a dotted field, and the sub-headers grouped under it *)
+Definition children (s : sty) : list (str * sty) :=
+  match s with
+  | SLeaf _ _ => []
+  | SSpread es => numbered 1 es
+  | SRec fs => fs
+  end.
+Definition subs (s : sty) : list str := headers_of_fields (children s).
+
+Definition headers_of (sc : schema) : list str := headers_of_fields sc.
 
 (* ---- the explicit model a schema denotes *)
 Definition denote_leaf (l : leaf) : model :=
